@@ -250,6 +250,9 @@ def conform(v, part, scenarios, tier, aspects, sig_of, nontrivial, confirm_patie
 
 BOUNDED_ASPECTS = [("all", "Trace_Bounded.cfg"), ("envelope", "Trace_Bounded_none.cfg")] + \
                   [(a, "Trace_Bounded_%s.cfg" % a) for a in ASPECTS]
+# the run on the real scheduler follows the wall clock: head events may slip into the next epoch under load,
+# so its epoch-keyed bounds allow for longer outages (G = 4)
+REAL_ASPECTS = [(a, c.replace("Trace_Bounded", "Trace_Bounded_real")) for a, c in BOUNDED_ASPECTS]
 CALL_ASPECTS = [("all", "Trace_Unblind.cfg")]
 
 
@@ -315,7 +318,7 @@ def run(tier):
     def part_real():
         sc = bounded_scenarios("real", "Scen_Bounded_real_big.cfg" if big else "Scen_Bounded_real.cfg", 4 if big else 2,
                                12, 8000, 1001)
-        conform(v, "real", sc, tier, BOUNDED_ASPECTS, sig_bounded, nontrivial_bounded)
+        conform(v, "real", sc, tier, REAL_ASPECTS, sig_bounded, nontrivial_bounded)
 
     def part_bids():
         sc = bounded_scenarios("bids", "Scen_Bounded_bids.cfg", 3 if big else 2, 4, 4000, 2001)
@@ -360,9 +363,7 @@ def replay(path):
     s.pop("aspect", None)
     part = s["part"]
     if PARTS[part][2] == "Trace_Bounded":
-        conform(v, part, [s], "quick", BOUNDED_ASPECTS, sig_bounded, nontrivial_bounded)
+        conform(v, part, [s], "quick", REAL_ASPECTS if part == "real" else BOUNDED_ASPECTS, sig_bounded, nontrivial_bounded)
     else:
         conform(v, part, [s], "quick", CALL_ASPECTS, sig_call, nontrivial_call, True)
-    for k in v.known.values():
-        pass
     return 1 if v.violations else 0
